@@ -96,7 +96,7 @@ func loadSites(c *Ctx) []loadSite {
 		}
 		out = append(out, ls)
 	}
-	sort.Slice(out, func(i, j int) bool { return out[i].call.Pos() < out[j].call.Pos() })
+	sort.Slice(out, func(i, j int) bool { return ir.PosLess(out[i].call.Pos(), out[j].call.Pos()) })
 	return out
 }
 
